@@ -54,6 +54,7 @@ func runC07(t *vs.Tape, cfg map[string]string) (res vs.Result) {
 	tornK := 1 + t.Intn(2, "torn.k")
 
 	g := &genCtx{swarm: swarmWeights(t, true), quick: cfg["tier"] != "thorough"}
+	fmt.Sscan(cfg["bulktotal"], &g.forceTotal)
 	nOps := 1 + t.Weighted("nops", 3, 4, 4, 3, 2, 2, 1, 1, 1, 1)
 	m := newStoreModel()
 	base := disk.Seq()
@@ -133,9 +134,15 @@ func runC07(t *vs.Tape, cfg map[string]string) (res vs.Result) {
 			for _, q := range []int{h.inv, h.inv + 1, h.ret - 1, h.ret, h.ret + 1} {
 				keep[q] = true
 			}
+			if h.kind == opRebuild {
+				// a rebuild issues few file-system operations: keep every crash point inside it
+				for q := h.inv; q <= h.ret; q++ {
+					keep[q] = true
+				}
+			}
 		}
 		sc := &simdisk.SeedChooser{S: tornSeed + 17}
-		for len(keep) < 90 {
+		for len(keep) < 100 {
 			keep[base+sc.Intn(len(log)-base+1, "thin")] = true
 		}
 		c.Inc("runs_crash_points_thinned")
@@ -309,14 +316,14 @@ func checkRecovered(s *PebbleScanner, cur *storeModel, fl *histOp, where string,
 		// re-run (deletes the first signature, adds another): the re-run must still
 		// restore full consistency for whatever records exist then.
 		mm := fl.before
-		if ids := fl.before.ids(); len(ids) > 0 && len(where)%2 == 0 {
+		if ids := fl.before.ids(); len(ids) > 0 && (len(where)%2 == 0 || len(ids) > 1000) {
 			mm = fl.before.clone()
 			harnessMutated = true
 			if err := s.DeleteSignature(ids[0]); err != nil {
 				return nil, vs.Violationf("C07/rebuild-interrupted/delete-failed", "%s: DeleteSignature(%q) on the recovered store: %v", where, ids[0], err)
 			}
 			delete(mm.sigs, ids[0])
-			extra := detection.Signature{ID: "AFTER-CRASH", Name: "late", TopologyHash: topoHashes()[1], FuzzyHash: fuzzyHashes()[2], EntropyScore: 4.3, EntropyTolerance: 0.1}
+			extra := detection.Signature{ID: "zzz-after-crash", Name: "late", TopologyHash: topoHashes()[1], FuzzyHash: fuzzyHashes()[2], EntropyScore: 4.3, EntropyTolerance: 0.1}
 			if err := s.AddSignature(&extra); err != nil {
 				return nil, vs.Violationf("C07/rebuild-interrupted/add-failed", "%s: AddSignature on the recovered store: %v", where, err)
 			}
@@ -332,7 +339,7 @@ func checkRecovered(s *PebbleScanner, cur *storeModel, fl *histOp, where string,
 		}
 		if mm != fl.before {
 			// put the store back to what the caller's model says
-			s.DeleteSignature("AFTER-CRASH")
+			s.DeleteSignature("zzz-after-crash")
 			if old, ok := fl.before.sigs[fl.before.ids()[0]]; ok {
 				o := cloneSig(old)
 				s.AddSignature(&o)
